@@ -165,6 +165,12 @@ func (s *jwtSigner) hashOf(jwk jose.JSONWebKey) []byte {
 	hash.Write(stringx.ToBytes(jwk.Algorithm))
 	hash.Write(stringx.ToBytes(s.iss))
 
+	// the key id stays the same if a key is rotated using a configured key id. So, the
+	// key material has to be considered as well
+	if thumbprint, err := jwk.Thumbprint(crypto.SHA256); err == nil {
+		hash.Write(thumbprint)
+	}
+
 	return hash.Sum(nil)
 }
 
